@@ -529,3 +529,165 @@ impl Scenario for C10Faults {
         out
     }
 }
+
+// ------------------------------------------------------------------ F1 scenario
+
+#[derive(Clone, Debug, Serialize, Deserialize, PartialEq)]
+pub struct XPlan {
+    pub seed: u64,
+    pub set: ModuleSet,
+    pub apart: ModuleSet,
+    pub backend: BackendSel,
+    pub order: Vec<usize>,
+    pub sim: SimCfg,
+}
+
+#[derive(Clone, Debug, Default, Serialize, Deserialize)]
+pub struct XRef {
+    /// per module that defines the shared name: (module index, block name, item identifiers
+    /// of that definition when the module is compiled with its cone only)
+    pub expect: Vec<(usize, Option<String>, BTreeSet<String>)>,
+    pub expect_apart: Vec<(usize, Option<String>, BTreeSet<String>)>,
+}
+
+fn items_of(set: &ModuleSet, mi: usize, name: &str, backend: &BackendSel) -> (Option<String>, BTreeSet<String>) {
+    let rust = matches!(backend, BackendSel::Rasn(_));
+    let cone = set.cone(&set.modules[mi].name);
+    let idxs: Vec<usize> = (0..set.modules.len()).filter(|i| cone.contains(&set.modules[*i].name)).collect();
+    let compile = |s: &ModuleSet| {
+        let srcs: Vec<Src> = idxs.iter().map(|i| Src::Literal(s.modules[*i].text(&s.modules))).collect();
+        sut::compile_to_string(backend, &srcs, &BuilderPath::default())
+    };
+    let full = compile(set);
+    let Some(ai) = set.modules[mi].assigns.iter().position(|a| a.name == name) else { return (None, BTreeSet::new()) };
+    let mut s2 = set.clone();
+    s2.modules[mi].assigns.remove(ai);
+    let less = compile(&s2);
+    if !full.ok || !less.ok {
+        return (None, BTreeSet::new());
+    }
+    let bf = proj::modules_of(&full.generated, rust).unwrap_or_default();
+    let bl = proj::modules_of(&less.generated, rust).unwrap_or_default();
+    // the module's block: the one whose item set changes
+    for b in &bf {
+        let before = block_idents(Some(b));
+        let after = block_idents(bl.iter().find(|x| x.name == b.name));
+        let diff: BTreeSet<String> = before.difference(&after).cloned().collect();
+        if !diff.is_empty() {
+            return (Some(b.name.clone()), diff);
+        }
+    }
+    (None, BTreeSet::new())
+}
+
+pub struct C10XmodName;
+
+impl Scenario for C10XmodName {
+    fn property(&self) -> &'static str {
+        "C10"
+    }
+    fn name(&self) -> &'static str {
+        "xmod-name"
+    }
+    fn runs(&self, tier: Tier) -> u64 {
+        match tier {
+            Tier::Quick => 300,
+            Tier::Thorough => 3000,
+        }
+    }
+    fn needs_reference(&self) -> bool {
+        true
+    }
+    fn plan(&self, seed: u64, _idx: u64, _tier: Tier, _env: &Env) -> Value {
+        let root = Rng::new(seed);
+        let mut w = root.fork("workload");
+        let mut cfg = GenCfg::default_cfg();
+        cfg.modules = (2, 4);
+        cfg.assigns = (1, 8);
+        cfg.comments = false;
+        cfg.xmod_same_name = true;
+        let set = gen::generate(&mut w, &cfg);
+        let apart = crate::c11::rename_shared_apart(&set);
+        let order = w.permutation(set.modules.len());
+        let backend = BackendSel::random(&mut w);
+        serde_json::to_value(&XPlan { seed, set, apart, backend, order, sim: SimCfg::simple(root.fork("schedule").next_u64()) }).unwrap()
+    }
+    fn reference(&self, plan: &Value, _env: &Env) -> Value {
+        let p: XPlan = serde_json::from_value(plan.clone()).expect("c10 xmod plan");
+        let mut r = XRef::default();
+        for mi in 0..p.set.modules.len() {
+            if p.set.modules[mi].assigns.iter().any(|a| a.name == "Shared-Name") {
+                let (b, items) = items_of(&p.set, mi, "Shared-Name", &p.backend);
+                r.expect.push((mi, b, items));
+                let nm = format!("Shared-Name{mi}");
+                let (b2, items2) = items_of(&p.apart, mi, &nm, &p.backend);
+                r.expect_apart.push((mi, b2, items2));
+            }
+        }
+        serde_json::to_value(&r).unwrap()
+    }
+    fn execute(&self, plan: &Value, refs: &Value, root: &str, _env: &Env) -> Outcome {
+        let p: XPlan = serde_json::from_value(plan.clone()).expect("c10 xmod plan");
+        let mut out = Outcome::default();
+        let Ok(rf) = serde_json::from_value::<XRef>(refs.clone()) else {
+            out.inconclusive.push("reference crashed".into());
+            return out;
+        };
+        std::env::remove_var("CARGO");
+        std::env::set_var("CARGO_HOME", format!("{root}/cargo-home"));
+        let rust = matches!(p.backend, BackendSel::Rasn(_));
+        let joint = |set: &ModuleSet| -> Vec<Src> { p.order.iter().map(|i| Src::Literal(set.modules[*i].text(&set.modules))).collect() };
+        let (s1, s2) = (joint(&p.set), joint(&p.apart));
+        let be = p.backend.clone();
+        let body: sim::Body<(CompileOut, CompileOut)> = Box::new(move || {
+            sim::op_begin("compile");
+            let a = sut::compile_to_string(&be, &s1, &BuilderPath::default());
+            sim::op_end("compile");
+            sim::op_begin("compile-apart");
+            let b = sut::compile_to_string(&be, &s2, &BuilderPath::default());
+            sim::op_end("compile-apart");
+            (a, b)
+        });
+        let (mut results, rep) = sim::run_sim(&p.sim, None, root, vec![body]);
+        out.steps = rep.sched.steps + rep.events.len() as u64;
+        let Some((a, b)) = results.pop().flatten() else {
+            out.harness_error = Some("sim thread died".into());
+            return out;
+        };
+        if !a.ok || !b.ok || a.panic.is_some() || b.panic.is_some() {
+            out.inconclusive.push(format!("joint compilation is {} / {}", a.brief(), b.brief()));
+            return out;
+        }
+        let lost = |o: &CompileOut, expect: &[(usize, Option<String>, BTreeSet<String>)], name_of: &dyn Fn(usize) -> String| -> Vec<String> {
+            let blocks = proj::modules_of(&o.generated, rust).unwrap_or_default();
+            let mut v = vec![];
+            for (mi, bname, items) in expect {
+                if items.is_empty() {
+                    continue;
+                }
+                let have = block_idents(blocks.iter().find(|x| Some(&x.name) == bname.as_ref()));
+                let represented = items.iter().all(|i| have.contains(i));
+                let nm = name_of(*mi);
+                let warned = o.warnings.iter().any(|w| w.contains(&nm));
+                if !represented && !warned {
+                    v.push(format!("{} of module {}", nm, p.set.modules[*mi].name));
+                }
+            }
+            v
+        };
+        let lost_main = lost(&a, &rf.expect, &|_| "Shared-Name".to_string());
+        let lost_apart = lost(&b, &rf.expect_apart, &|mi| format!("Shared-Name{mi}"));
+        out.count("definitions_checked", rf.expect.len() as u64);
+        for l in &lost_apart {
+            out.violate("no-silent-loss", format!("definition {l} is neither in the bindings nor the subject of a warning, backend {}", p.backend.short()));
+        }
+        for l in &lost_main {
+            let oracle = if lost_apart.is_empty() { "xmod-same-bare-name" } else { "no-silent-loss" };
+            out.violate(oracle, format!("definition {l} is neither in the bindings nor the subject of a warning ({} warnings returned); with the name renamed apart per module every definition is present; backend {}, source order {:?}", a.warnings.len(), p.backend.short(), p.order));
+        }
+        out.sigs.push(mix(fnv1a(serde_json::to_string(&p.set).unwrap().as_bytes()), fnv1a(format!("{:?}{}", p.order, p.backend.short()).as_bytes())));
+        out.log_hash = fnv1a(format!("{}{}{:?}", fnv1a(a.generated.as_bytes()), fnv1a(b.generated.as_bytes()), out.violations).as_bytes());
+        out.sample = Some(json!({"modules": p.set.modules.len(), "order": p.order, "lost": lost_main}));
+        out
+    }
+}
